@@ -153,31 +153,49 @@ def run(R):
     with R.guard('C02.R4'):
         pn = tonic.body(re.compile(r'codec::decode::Streaming<T> as .*Stream>::poll_next$'))
         R.saw(pn)
+        # the end-of-stream status function, by role: the StreamingInner method that consults infer_grpc_status (today: response())
+        role = [bd for bd in tonic.bodies if bd.kind != 'promoted' and 'decode::StreamingInner' in bd.path and bd.calls(name='infer_grpc_status')]
+        R.check(len(role) == 1, 'C02.R4', 'one-final-status-fn', '', 'StreamingInner methods calling infer_grpc_status: %r' % [b_.path for b_ in role])
+        rs = role[0]
+        R.saw(rs)
+        rname = rs.path.split('::')[-1]
+        # its failing outcome = the returned variant whose payload comes from infer_grpc_status (Err(e) today); every other outcome is "fine"
+        rets = [(bb, i, a, ops) for bb, i, p, a, ops in mirlib.aggregates(rs) if p['l'] == 0 and not p.get('pr') and a.get('variant')]
+        errs = [(bb, i, a, ops) for bb, i, a, ops in rets if ops and term_contains(rs.origin(ops[0]), lambda x: is_call(x, name='infer_grpc_status'))]
+        R.check(len(errs) == 1, 'C02.R4', 'infer-error-returned', site(rs), 'the error of infer_grpc_status (Err(Some(e))) is returned as the failing outcome: %r' % [a.get('variant') for bb, i, a, ops in errs])
+        err_idx = errs[0][2].get('vi')
+        R.check(err_idx is not None, 'C02.R4', 'infer-error-returned:variant', site(rs), 'failing outcome variant index %r' % err_idx)
+        def fine_guard(gs):
+            for s_, vals, tm in gs:
+                if not (tm and tm[0] == 'discr' and term_contains(tm, lambda x: is_call(x, name=rname))):
+                    continue
+                if vals == ['else']:
+                    explicit = [v for vs_ in pn.switch_edges(s_).values() for v in vs_ if v != 'else']
+                    if err_idx in explicit:
+                        return True
+                elif err_idx not in vals:
+                    return True
+            return False
         n = 0
         for bb in writers_of(pn, 0):
             for w in block_writes(pn, bb, 0):
                 if w[0] == 'variant' and w[2] == 'Ready' and strip_refs(w[3][0])[0] == 'agg' and strip_refs(w[3][0])[1].get('variant') == 'None':
                     n += 1
-                    gs = pn.edge_guards(bb)
-                    okg = any('response' in show(tm) and show(tm).startswith('discr(') and vals == [0] for s, vals, tm in gs)
-                    R.check(okg, 'C02.R4', 'clean-end-gated', site(pn, bb), 'Ready(None) guarded by response() == Ok: %r' % okg)
+                    okg = fine_guard(pn.edge_guards(bb))
+                    R.check(okg, 'C02.R4', 'clean-end-gated', site(pn, bb), 'Ready(None) only where %s() did not report a status: %r' % (rname, okg))
         R.floor('C02.R4', 'clean-end sites', n, 1)
         # the error of response() is reported (stored then replayed)
         st = [(bb, i) for bb, i, s in mirlib.assignments(pn, lambda s: mirlib.place_fields(s['p'])[-1:] == ['state'])]
         okr = False
         for bb, i in st:
             v = pn._origin_def(('stmt', bb, i, pn.blocks[bb]['stmts'][i]['rv']), 0, set())
-            if term_contains(v, lambda x: is_call(x, name='response')) and term_contains(v, lambda x: x and x[0] == 'agg' and x[1].get('variant') == 'Some'):
+            if term_contains(v, lambda x: is_call(x, name=rname)) and term_contains(v, lambda x: x and x[0] == 'agg' and x[1].get('variant') == 'Some'):
                 okr = True
-        R.check(okr, 'C02.R4', 'response-error-stored', site(pn), 'Err(e) of response() is stored as State::Error(Some(e)) for the next iteration')
-        rs = tonic.body('decode::StreamingInner::response')
-        R.saw(rs)
+        R.check(okr, 'C02.R4', 'response-error-stored', site(pn), 'the status reported by %s() is stored as State::Error(Some(e)) for the next iteration' % rname)
         ib, it = rs.call1(name='infer_grpc_status')
         a0, a1 = rs.origin(it['args'][0]), rs.origin(it['args'][1])
         R.check(mentions_field(a0, 'trailers') and is_call(strip_refs(a0), name='as_ref'), 'C02.R4', 'infer-from-trailers', site(rs, ib), 'trailers argument = %s' % show(a0))
         R.check(term_contains(a1, lambda x: x and x[0] == 'variant' and x[2] == 'Response') and mentions_field(a1, 'direction'), 'C02.R4', 'infer-with-http-status', site(rs, ib), 'status argument = %s' % show(a1))
-        errs = [(bb, i, ops) for bb, i, p, a, ops in mirlib.aggregates(rs, 'result::Result', 'Err') if p['l'] == 0]
-        R.check(len(errs) == 1 and term_contains(rs.origin(errs[0][2][0]), lambda x: is_call(x, name='infer_grpc_status')), 'C02.R4', 'infer-error-returned', site(rs), 'Err(e) returned from infer_grpc_status Err(Some(e))')
         pfr = tonic.body('decode::StreamingInner::poll_frame')
         R.saw(pfr)
         ex = pfr.calls(name='extend')
